@@ -36,7 +36,10 @@ TYPES = ["i32", "i8", "i16"]
 
 
 def sig(ev, m):
-    return "%s|%s|%s" % (PID, ",".join(m.get("bad", [])), ",".join(ev.get("tags", [])))
+    """<property>|<disagreements>[outcome kinds unless both are rows]|<filter / column / key tags>"""
+    ki, kn = (ev.get("ri") or {}).get("kind", "?"), (ev.get("rn") or {}).get("kind", "?")
+    kinds = "" if (ki, kn) == ("rows", "rows") else "[indexed=%s,keyfree=%s]" % (ki, kn)
+    return "%s|%s%s|%s" % (PID, ",".join(m.get("bad", [])), kinds, ",".join(ev.get("tags", [])))
 
 
 def detail(ev, m):
@@ -209,8 +212,9 @@ def check(tier):
         lib.log("[%s] validated %d events, %d mismatches, %.1fs" % (PID, nlines, len(mms), time.time() - t0))
         evs = sc.load_events(allp)
         caught = {evs[m["line"]]["id"]: m["bad"] for m in mms if 8000000 <= evs[m["line"]]["id"] < 9000000}
+        problem = None          # vacuity findings end the run as inconclusive unless a violation was reproduced
         if not probes or any(want not in caught.get(i, []) for i, want in PROBE_EXPECT.items()):
-            raise lib.Inconclusive("sensitivity probe: the validator accepted a corrupted case (caught %s of %d probe lines)" % (caught, len(probes)))
+            problem = "sensitivity probe: the validator accepted a corrupted case (caught %s of %d probe lines)" % (caught, len(probes))
         mms = [m for m in mms if not 8000000 <= evs[m["line"]]["id"] < 9000000]
         wmm = [m for m in mms if evs[m["line"]]["id"] >= 9000000]
         mmm = [m for m in mms if 1000000 <= evs[m["line"]]["id"] < 9000000]
@@ -246,7 +250,12 @@ def check(tier):
         nontrivial = rep["nontrivial"] + mrep["nontrivial"]
         kinds = [k for k in ("pk", "secondary", "secondary-composite") if not use.get(k)]
         if kinds or nontrivial < ncases * 0.3 or not use.get("how:lookup"):
-            raise lib.Inconclusive("vacuous run: %d of %d cases through an index, key kinds %s (missing %s)" % (nontrivial, ncases, use, kinds))
+            problem = problem or "vacuous run: %d of %d cases through an index, key kinds %s (missing %s)" % (nontrivial, ncases, use, kinds)
+        for rp in (rep, mrep):
+            if rp["extra"].get("aborted"):
+                problem = problem or "the driver stopped early: " + rp["extra"]["aborted"]
+        if problem and not v.violations:
+            raise lib.Inconclusive(problem)
         rc = v.finish()
         cov = {
             "states": states + (laws.distinct if laws else 0), "transitions": states + (laws.generated if laws else 0),
